@@ -1003,7 +1003,8 @@ import string as _string
 _STDLIB_CONSTANTS = {"string." + n: getattr(_string, n) for n in ("hexdigits", "digits", "ascii_letters", "ascii_lowercase", "ascii_uppercase",
                                                                    "octdigits", "punctuation", "printable", "whitespace")}
 _ITERTOOLS_PURE = {"call:itertools.pairwise", "call:itertools.accumulate", "call:itertools.batched", "call:itertools.islice",
-                   "call:itertools.zip_longest", "call:itertools.product"}
+                   "call:itertools.zip_longest", "call:itertools.product", "call:itertools.chain", "call:itertools.repeat",
+                   "call:itertools.combinations", "call:itertools.permutations", "call:itertools.compress"}
 
 
 def evaluate(t, env, memo=None):
@@ -1290,7 +1291,7 @@ def evaluate(t, env, memo=None):
             r = list(zip(*[evaluate(a, env, memo) for a in t.args]))
         elif op == "range":
             r = range(*[evaluate(a, env, memo) for a in t.args])
-        elif op in _ITERTOOLS_PURE and t.args and not any(isinstance(a, Op) and a.op == "kv" for a in t.args[1:] if op != "call:itertools.accumulate"):
+        elif op in _ITERTOOLS_PURE and t.args:
             import itertools as _it
             vals_ = []
             kw_ = {}
@@ -1300,8 +1301,12 @@ def evaluate(t, env, memo=None):
                 else:
                     vals_.append(evaluate(a, env, memo))
             for v_ in vals_[:1]:
-                if not isinstance(v_, (list, tuple, bytes, bytearray, str, range, memoryview)):
+                if not isinstance(v_, (list, tuple, bytes, bytearray, str, range, memoryview)) and op != "call:itertools.repeat":
                     raise CannotEval(repr(t)[:120])
+            if op == "call:itertools.repeat" and len(vals_) < 2 and "times" not in kw_:
+                raise CannotEval("unbounded repeat")
+            if op == "call:itertools.accumulate" and (len(vals_) > 1 or "func" in kw_):
+                raise CannotEval("accumulate with a function")
             r = list(getattr(_it, op.rsplit(".", 1)[1])(*vals_, **kw_))
         elif op == "ceil" and len(t.args) == 1:
             import math as _math
